@@ -32,7 +32,7 @@ Theorem C08_sym_rowsum_dual :
     forall (d : list T) (P : list (Z * Z * Z)),
       (symm T O (lapt_weighted O d P) /\ rs0 T O (lapt_weighted O d P)) /\
       (symm T O (lapt_plain O P) /\ rs0 T O (lapt_plain O P)).
-Proof. intros T O H d P. exact (conj (lapt_weighted_sym_rowsum T O H d P) (lapt_plain_sym_rowsum T O H P)). Qed.
+Proof. exact lapt_sym_rowsum. Qed.
 Print Assumptions C08_sym_rowsum_dual.
 
 (* volume Laplacian (laplacian_op.volume_laplacian), any edge weights omega *)
@@ -46,7 +46,7 @@ Print Assumptions C08_sym_rowsum_volume.
 (* tetrahedral dual Laplacian (laplacian_op.laplacian_tetrahedra) of a cell list: zero row sums always; symmetric on every
    cell list that passes the decidable test cell_adjacency_ok (cell_to_cell symmetric with multiplicities and inside the
    cell range - what a conforming tetrahedral mesh gives), which the batch checker evaluates on every generated mesh *)
-Theorem C08_sym_rowsum_tetra :
+Theorem C08_sym_rowsum_tetra_cond :
   forall (T : Type) (O : ops T),
     ring_theory (o0 O) (o1 O) (oadd O) (omul O) (osub O) (oopp O) eq ->
     oofZ O 0%Z = o0 O ->
@@ -54,7 +54,7 @@ Theorem C08_sym_rowsum_tetra :
     forall (C : list cell),
       rs0 T O (laplacian_tetrahedra O C) /\ (cell_adjacency_ok C = true -> symm T O (laplacian_tetrahedra O C)).
 Proof. exact laplacian_tetrahedra_sym_rowsum. Qed.
-Print Assumptions C08_sym_rowsum_tetra.
+Print Assumptions C08_sym_rowsum_tetra_cond.
 
 (* ---- C08_stiffness ---------------------------------------------------------------------------------------------- *)
 (* cotan Laplacian = independently assembled P1 stiffness matrix, entrywise, for every list of non-degenerate triangles *)
@@ -81,7 +81,8 @@ Theorem C08_gram :
 Proof. exact cotan_laplacian_is_gag. Qed.
 Print Assumptions C08_gram.
 
-(* ---- C08_gradient_affine: G applied to x |-> <a,x> + b0 is (<a,X>, <a,Y>) in each face basis ---------------------- *)
+(* ---- C08_gradient_affine: G applied to x |-> <a,x> + b0 is (<a,X>, <a,Y>) in each face basis (per face, then for the rows of
+   the assembled matrix) *)
 Theorem C08_gradient_affine :
   forall (T : Type) (O : ops T),
     field_theory (o0 O) (o1 O) (oadd O) (omul O) (osub O) (oopp O) (odiv O) (oinv O) eq ->
@@ -95,6 +96,24 @@ Theorem C08_gradient_affine :
         apply_rows T O (grad_face O (grad_complex O) V (iT, (f, b))) fv = (vdot O a (fst b), vdot O a (snd b)).
 Proof. exact gradient_affine_face. Qed.
 Print Assumptions C08_gradient_affine.
+
+(* row k of the assembled complex gradient matrix (gradient_complex = the model of operators.gradient), as a matrix-vector
+   product with the vertex values of an affine function *)
+Theorem C08_gradient_affine_matrix :
+  forall (T : Type) (O : ops T),
+    field_theory (o0 O) (o1 O) (oadd O) (omul O) (osub O) (oopp O) (odiv O) (oinv O) eq ->
+    two O <> o0 O ->
+    forall (V : list (vec T)) (F : list face) (bases : list (vec T * vec T)) (a : vec T) (b0 : T) (fv : Z -> T)
+           (k : Z) (f : face) (b : vec T * vec T),
+      In (k, (f, b)) (indexed (combine F bases)) ->
+      nondeg T O V f -> face_basis_ok T O V f b ->
+      (let '(p, q, r) := f in
+       fv p = oadd O (vdot O a (vnth O V p)) b0 /\ fv q = oadd O (vdot O a (vnth O V q)) b0 /\
+       fv r = oadd O (vdot O a (vnth O V r)) b0) ->
+      mv T O (re_part (gradient_complex O V F bases)) fv k = vdot O a (fst b) /\
+      mv T O (im_part (gradient_complex O V F bases)) fv k = vdot O a (snd b).
+Proof. exact gradient_matrix_affine. Qed.
+Print Assumptions C08_gradient_affine_matrix.
 
 (* the real gradient (as_complex=False) has the same coefficients on rows 2 iT, 2 iT + 1; shape (2|F|, |V|) *)
 Theorem C08_gradient_real_rows :
@@ -126,14 +145,14 @@ Print Assumptions C08_mass.
 
 (* area_weight_matrix_edges sums to the total area on every mesh whose stored edge list covers the three half-edges of each
    face exactly once (decidable test edge_cover_ok, evaluated on every generated mesh by the batch checker) *)
-Theorem C08_mass_edges :
+Theorem C08_mass_edges_cond :
   forall (T : Type) (O : ops T),
     field_theory (o0 O) (o1 O) (oadd O) (omul O) (osub O) (oopp O) (odiv O) (oinv O) eq ->
     three O <> o0 O ->
     forall (V : list (vec T)) (F : list face) (E : list edge),
       edge_cover_ok F E = true -> total O (mass_edges O false V F E) = sumT O (areas O V F).
 Proof. exact edge_mass_total. Qed.
-Print Assumptions C08_mass_edges.
+Print Assumptions C08_mass_edges_cond.
 
 (* tetrahedral meshes: vertex volumes sum to 4 x the total volume, cell volumes to the total volume *)
 Theorem C08_mass_volume :
@@ -186,9 +205,7 @@ Theorem C08_incidence_patterns :
        vertex_to_face O F =
        flat_map (fun t : Z * face => let '(iT, (p, q, r)) := t in
                    let w := odiv O (o1 O) (ofnat O 3) in (iT, p, w) :: (iT, q, w) :: (iT, r, w) :: nil) (indexed F)).
-Proof.
-  intros T O. exact (conj (adjacency_pattern T O) (conj (vertex_to_edge_pattern T O) (vertex_to_face_pattern T O))).
-Qed.
+Proof. exact incidence_patterns. Qed.
 Print Assumptions C08_incidence_patterns.
 
 (* ---- over the reals: the model of the code as it is (geometry.cotan, geometry.face_basis through SurfaceConnectionFaces) -- *)
@@ -241,3 +258,22 @@ Theorem C08_real_edge_mass_positive :
     Forall2 (fun e x => has_face F e -> (0 < x)%R) E (edge_acc Rops F (areas Rops V F) E).
 Proof. exact real_edge_mass_positive. Qed.
 Print Assumptions C08_real_edge_mass_positive.
+
+(* tetrahedral meshes: cell volumes and vertex volumes are positive when no cell is flat and every vertex lies in a cell *)
+Theorem C08_real_volume_mass_positive :
+  forall (V : list (vec R)) (C : list cell) (n : Z),
+    (forall c, In c C -> cell_nondeg V c) ->
+    (forall u, (0 <= u < n)%Z -> exists c, In c C /\ In u (cell_list c)) ->
+    Forall (fun x => (0 < x)%R) (cell_volumes Rops V C) /\
+    Forall (fun x => (0 < x)%R) (vol_vertex_acc Rops n C (cell_volumes Rops V C)).
+Proof. exact real_volume_mass_positive. Qed.
+Print Assumptions C08_real_volume_mass_positive.
+
+(* the inverse / sqrt options (generated post-processing chains) keep every positive diagonal entry positive *)
+Theorem C08_real_mass_options_positive :
+  forall x : R, (0 < x)%R ->
+    (forall inv sq, (0 < massv_post Rops inv sq x)%R) /\ (forall inv, (0 < massf_post Rops inv x)%R) /\
+    (forall inv, (0 < masse_post Rops inv x)%R) /\ (forall inv sq, (0 < massvv_post Rops inv sq x)%R) /\
+    (forall inv sq, (0 < massvc_post Rops inv sq x)%R).
+Proof. exact real_mass_options_positive. Qed.
+Print Assumptions C08_real_mass_options_positive.
